@@ -164,7 +164,17 @@ def build_case(run, item, rng, cap):
     case = {"prog": prog, "ord": order, "vars": vars_, "text": text, "store": []}
     kconf = kc.build(text, run.scratch)
     n = 0
-    for asg in ktree.assignments(vars_):
+    all_asgs = list(ktree.assignments(vars_))
+    warm = os.path.join(run.scratch, "sdk_warm")
+    for asg in all_asgs:
+        # a reachable configuration is reached through a history: the instance has just been in (and has fully
+        # evaluated and written) another configuration of the same program, seeded choice
+        if len(all_asgs) > 1:
+            evalcheck.apply_assignment(kconf, info, vars_, rng.choice(all_asgs))
+            for s_ in kconf.unique_defined_syms:
+                s_.str_value
+            kconf.write_config(warm, save_old=False)
+            os.unlink(warm)
         evalcheck.apply_assignment(kconf, info, vars_, asg)
         try:
             obs, _ = observe_store(run, kconf, case, names, info, mode=n % 3)
